@@ -3,6 +3,7 @@ package props
 import (
 	"fmt"
 	"go/ast"
+	"go/token"
 	"go/types"
 	"sort"
 	"strings"
@@ -213,12 +214,257 @@ func init() {
 	register(&Check{
 		ID: "C18",
 		Expl: "Decides that no type is dropped by a conversion direction: (E4.api-marshal) every total native→API converter has a case (or a value-preserving default) for every concrete type the decoders can put into the interface it switches on — the universe is exact, taken from the MakeInterface instructions of decode-side code; (E4.api-unmarshal) every API→native type switch over a protobuf oneof covers all wrapper types of that oneof; " +
-			"(E4.decode-produces) conversely, every native type has a decoder row.",
+			"(E4.decode-produces) conversely, every native type has a decoder row; (E3.config-api-symmetry) every neighbour / peer-group / global configuration field the API→config converters accept is written back by the config→API converters; (E3.statement-provenance) the listed conditions of a policy statement are computed from its conditions and the listed actions from its actions.",
 		Not: "That each value is converted correctly (field by field, byte for byte) and that API→native→API is the identity are value-level and not decided.",
 		Run: func(c *Ctx) {
 			c.ruleAPIMarshalTotal()
 			c.ruleAPIUnmarshalTotal()
 			c.ruleDecodeProduces("E4.decode-produces", []string{"pkg/packet/bgp"}, 200)
+			c.ruleConfigAPISymmetry()
+			c.ruleStatementProvenance()
 		},
+	})
+}
+
+// ruleConfigAPISymmetry: what the API→config converter accepts, the config→API converter reports.
+func (c *Ctx) ruleConfigAPISymmetry() {
+	r := c.R
+	rule := "E3.config-api-symmetry"
+	r.Rule(rule, "for neighbour, peer-group and global configuration: every field of an API message that the API→config converter reads (directly or through a getter, including its helpers) is written by the config→API converter of the same object; a field that is accepted but never reported back cannot convert 'to the native form and back to an equal API value'", 250)
+	pairs := [][2]string{
+		{"pkg/config/oc.NewPeerFromConfigStruct", "pkg/server.newNeighborFromAPIStruct"},
+		{"pkg/config/oc.NewPeerGroupFromConfigStruct", "pkg/server.newPeerGroupFromAPIStruct"},
+		{"pkg/config/oc.NewGlobalFromConfigStruct", "pkg/server.newGlobalFromAPIStruct"},
+		{"internal/pkg/table.toStatementApi", "pkg/server.newStatementFromApiStruct"},
+		{"pkg/server.toStatementApi", "pkg/server.newStatementFromApiStruct"},
+		{"internal/pkg/table.ToPolicyApi", "pkg/server.newPolicyFromApiStruct"},
+		{"pkg/config/oc.NewAPIDefinedSetsFromConfigStruct", "pkg/server.newConfigDefinedSetsFromApiStruct"},
+	}
+	apiPkg := c.P.Pkg("api")
+	if apiPkg == nil {
+		r.Undec(rule, "-", "anchor:api", "-", "package not found")
+		return
+	}
+	fieldsOf := func(root *ssa.Function, write bool) map[string]bool {
+		out := map[string]bool{}
+		seen := map[*ssa.Function]bool{}
+		var walk func(f *ssa.Function, d int)
+		walk = func(f *ssa.Function, d int) {
+			if f == nil || seen[f] || d > 5 || f.Blocks == nil {
+				return
+			}
+			seen[f] = true
+			for _, an := range f.AnonFuncs {
+				walk(an, d)
+			}
+			for _, b := range f.Blocks {
+				for _, in := range b.Instrs {
+					switch x := in.(type) {
+					case *ssa.FieldAddr:
+						n := ir.NamedOf(ir.Deref(x.X.Type()))
+						if n == nil || n.Obj().Pkg() != apiPkg.Types {
+							continue
+						}
+						fv := fieldVarOf(x)
+						if !fv.Exported() {
+							continue
+						}
+						isStore := false
+						for _, ref := range *x.Referrers() {
+							if st, ok := ref.(*ssa.Store); ok && st.Addr == ssa.Value(x) {
+								isStore = true
+							}
+						}
+						if isStore == write {
+							out[n.Obj().Name()+"."+fv.Name()] = true
+						}
+					case ssa.CallInstruction:
+						cal := x.Common().StaticCallee()
+						if cal == nil {
+							continue
+						}
+						if !write && cal.Signature.Recv() != nil && strings.HasPrefix(cal.Name(), "Get") {
+							if n := ir.NamedOf(cal.Signature.Recv().Type()); n != nil && n.Obj().Pkg() == apiPkg.Types {
+								out[n.Obj().Name()+"."+strings.TrimPrefix(cal.Name(), "Get")] = true
+								continue
+							}
+						}
+						if c.P.InModule(cal) && cal.Pkg != nil && cal.Pkg.Pkg != apiPkg.Types {
+							walk(cal, d+1)
+						}
+					}
+				}
+			}
+		}
+		walk(root, 0)
+		return out
+	}
+	for _, pr := range pairs {
+		wf, rf := c.P.Func(pr[0]), c.P.Func(pr[1])
+		if wf == nil || rf == nil {
+			r.Undec(rule, pr[1], "anchor", "-", "converter not found")
+			continue
+		}
+		w := fieldsOf(wf, true)
+		rd := fieldsOf(rf, false)
+		var keys []string
+		for k := range rd {
+			keys = append(keys, k)
+		}
+		sort.Strings(keys)
+		for _, k := range keys {
+			if w[k] {
+				r.Ok(rule, ir.FuncKey(rf), "accepts "+k, c.P.Pos(rf.Pos()), "reported back by "+wf.Name())
+			} else {
+				r.Bad(rule, ir.FuncKey(rf), "accepts "+k, c.P.Pos(rf.Pos()), "the field is accepted from the API and stored in the configuration, but "+wf.Name()+" never writes it: listing the object back reports the zero value")
+			}
+		}
+	}
+}
+
+// ruleStatementProvenance: the API view of a statement's conditions is computed from its conditions, of its actions from its actions.
+func (c *Ctx) ruleStatementProvenance() {
+	r := c.R
+	rule := "E3.statement-provenance"
+	r.Rule(rule, "in every config→API statement converter (functions named toStatementApi): each value stored into a field of api.Conditions — and every branch condition that selects it — reads the statement's Conditions and never its Actions, and symmetrically for api.Actions; a condition reported from an action's setting is a different policy from the one that was configured", 4)
+	for _, fn := range c.P.Funcs {
+		if fn.Parent() != nil || fn.Name() != "toStatementApi" || fn.Blocks == nil {
+			continue
+		}
+		info := c.infoFor(fn)
+		body := funcBody(fn)
+		if info == nil || body == nil {
+			continue
+		}
+		fk := ir.FuncKey(fn)
+		// mentions: does the expression read <statement>.Conditions / <statement>.Actions ?
+		mentions := func(n ast.Node, which string) bool {
+			found := false
+			if n == nil {
+				return false
+			}
+			ast.Inspect(n, func(x ast.Node) bool {
+				if se, ok := x.(*ast.SelectorExpr); ok && se.Sel.Name == which {
+					if t := info.TypeOf(se.X); t != nil {
+						if nt := ir.NamedOf(ir.Deref(t)); nt != nil && nt.Obj().Name() == "Statement" {
+							found = true
+						}
+					}
+				}
+				return !found
+			})
+			return found
+		}
+		apiKind := func(t types.Type) string {
+			nt := ir.NamedOf(ir.Deref(t))
+			if nt == nil || nt.Obj().Pkg() == nil || !strings.HasSuffix(nt.Obj().Pkg().Path(), "/api") {
+				return ""
+			}
+			switch nt.Obj().Name() {
+			case "Conditions":
+				return "Conditions"
+			case "Actions":
+				return "Actions"
+			}
+			return ""
+		}
+		other := map[string]string{"Conditions": "Actions", "Actions": "Conditions"}
+		count := map[string]int{}
+		var visit func(n ast.Node, conds []ast.Expr)
+		check := func(kind, field string, pos token.Pos, value ast.Node, conds []ast.Expr) {
+			count[kind]++
+			bad := mentions(value, other[kind])
+			for _, cnd := range conds {
+				if mentions(cnd, other[kind]) {
+					bad = true
+				}
+			}
+			cons := "api." + kind + "." + field
+			if bad {
+				r.Bad(rule, fk, cons, c.P.Pos(pos), "the value reported for this "+strings.ToLower(kind[:len(kind)-1])+" field is computed or selected from the statement's "+other[kind]+": the listed policy differs from the configured one")
+			} else {
+				r.Ok(rule, fk, cons, c.P.Pos(pos), "derived from the statement's "+kind)
+			}
+		}
+		visit = func(n ast.Node, conds []ast.Expr) {
+			switch s := n.(type) {
+			case nil:
+				return
+			case *ast.BlockStmt:
+				for _, st := range s.List {
+					visit(st, conds)
+				}
+			case *ast.IfStmt:
+				visit(s.Body, append(append([]ast.Expr{}, conds...), s.Cond))
+				if s.Else != nil {
+					visit(s.Else, append(append([]ast.Expr{}, conds...), s.Cond))
+				}
+			case *ast.SwitchStmt:
+				cs := conds
+				if s.Tag != nil {
+					cs = append(append([]ast.Expr{}, conds...), s.Tag)
+				}
+				for _, cc := range s.Body.List {
+					for _, st := range cc.(*ast.CaseClause).Body {
+						visit(st, cs)
+					}
+				}
+			case *ast.ForStmt:
+				visit(s.Body, conds)
+			case *ast.RangeStmt:
+				visit(s.Body, conds)
+			case *ast.AssignStmt:
+				for i, lhs := range s.Lhs {
+					if se, ok := lhs.(*ast.SelectorExpr); ok {
+						if k := apiKind(info.TypeOf(se.X)); k != "" && i < len(s.Rhs) {
+							check(k, se.Sel.Name, s.Pos(), s.Rhs[i], conds)
+						}
+					}
+				}
+				for _, rhs := range s.Rhs {
+					visitExpr(rhs, conds, info, apiKind, check)
+				}
+			case *ast.ReturnStmt:
+				for _, e := range s.Results {
+					visitExpr(e, conds, info, apiKind, check)
+				}
+			case *ast.ExprStmt:
+				visitExpr(s.X, conds, info, apiKind, check)
+			case *ast.DeclStmt:
+				ast.Inspect(s, func(x ast.Node) bool {
+					if e, ok := x.(ast.Expr); ok {
+						visitExpr(e, conds, info, apiKind, check)
+						return false
+					}
+					return true
+				})
+			}
+		}
+		visit(body, nil)
+		if count["Conditions"] == 0 || count["Actions"] == 0 {
+			r.Bad(rule, fk, "converter shape", c.P.Pos(fn.Pos()), "no assignment to api.Conditions / api.Actions fields found")
+		}
+	}
+}
+
+// visitExpr finds composite literals of api.Conditions / api.Actions inside an expression and checks each keyed field.
+func visitExpr(e ast.Expr, conds []ast.Expr, info *types.Info, apiKind func(types.Type) string, check func(kind, field string, pos token.Pos, value ast.Node, conds []ast.Expr)) {
+	ast.Inspect(e, func(x ast.Node) bool {
+		cl, ok := x.(*ast.CompositeLit)
+		if !ok {
+			return true
+		}
+		k := apiKind(info.TypeOf(cl))
+		if k == "" {
+			return true
+		}
+		for _, el := range cl.Elts {
+			if kv, ok := el.(*ast.KeyValueExpr); ok {
+				if id, ok := kv.Key.(*ast.Ident); ok {
+					check(k, id.Name, kv.Pos(), kv.Value, conds)
+				}
+			}
+		}
+		return false
 	})
 }
